@@ -73,6 +73,12 @@ const (
 	// If the determinant magnitude is larger than this value then we know
 	// its sign with certainty.
 	detErrorMultiplier = 3.2321 * dblEpsilon
+
+	// minStableSignNorm2Product is the smallest product of squared edge
+	// lengths (2**-1000) for which stableSign trusts its error bound. Below
+	// it the product, and with it the bound, loses precision or becomes zero
+	// through floating-point underflow.
+	minStableSignNorm2Product = 0x1p-1000
 )
 
 // epsilonForDigits reports the epsilon for the given number of digits of mantissa.
@@ -222,7 +228,14 @@ func stableSign(a, b, c Point) Direction {
 	}
 
 	det := -e1.Cross(e2).Dot(op)
-	maxErr := detErrorMultiplier * math.Sqrt(e1.Norm2()*e2.Norm2())
+	norm2Product := e1.Norm2() * e2.Norm2()
+	if norm2Product < minStableSignNorm2Product {
+		// The edges are so short that the product above (and the error bound
+		// derived from it) underflows; the bound is then meaningless, so let
+		// the caller fall back to exact arithmetic.
+		return Indeterminate
+	}
+	maxErr := detErrorMultiplier * math.Sqrt(norm2Product)
 
 	// If the determinant isn't zero, within maxErr, we know definitively the point ordering.
 	if det > maxErr {
